@@ -212,7 +212,8 @@ class IndexInRun(Harness):
     title = "index market in a real run: recorded fundamental = weighted average of the components' new-time values"
     what_symbolic = "the rate of a fundamental shock on a component; declaration order of the index is the case split"
     nontrivial_event = "a shocked component value entered the index"
-    assumptions = ("index-first cases: the simulator's market list is reordered after the real _setup() (a "
+    assumptions = (rn.REDUCTION_NOTE,
+                   "index-first cases: the simulator's market list is reordered after the real _setup() (a "
                    "configuration listing the index before its components is refused by IndexMarket.setup)",)
     bounds = {"quick": "2 components (shares 100/300) + index placed last or first in the simulator's market list, 4 steps, shock on a component at t=1..2",
               "thorough": "same with 3 components"}
